@@ -197,7 +197,7 @@ def packet_trace(rng, npackets, mode, small=None, D=D_FS):
 def core_traces(rng, tier):
     """receiver core: UTMI histories as for the full module, with data_crc.crc supplied as the real CRC unit would
     (so that good packets occur), sometimes arbitrary, and tx_allowed pulsing at random"""
-    n = 24 if tier == "quick" else 200
+    n = 18 if tier == "quick" else 200
     out = []
     for k in range(n):
         base = packet_trace(rng, rng.randint(1, 5), k % 4, small=alphabet(tier) if k % 5 == 4 else None, D=0)
@@ -233,7 +233,7 @@ def core_traces(rng, tier):
 def traces(target, rng, tier):
     if target.core:
         return core_traces(rng, tier)
-    n = 36 if tier == "quick" else 300
+    n = 24 if tier == "quick" else 300
     small = alphabet(tier)
     D = D_SMALL if target.small else D_FS
     out = []
